@@ -5,6 +5,7 @@ from __future__ import annotations
 import asyncio
 import selectors
 import sys
+import time
 from contextlib import contextmanager
 
 
@@ -82,20 +83,31 @@ _CLOCK_SITES = (
     ("haiway.helpers.throttling", "monotonic"),
     ("haiway.context.metrics", "monotonic"),
 )
+_REAL_MONOTONIC = time.monotonic
 
 
 @contextmanager
 def clocks(fn):
-    """Rebind the module-level `monotonic` names haiway imported to the given clock function."""
+    """Make haiway read the given clock: rebind the module-level `monotonic` names it imported (the known sites and, by
+    identity, every other name in a loaded haiway module that is bound to time.monotonic) and `time.monotonic` itself for
+    the duration of the run - so that a library that spells the read differently (`import time; time.monotonic()`, an
+    alias, a shared helper module) is still driven by the virtual clock instead of silently mixing real and virtual time."""
     saved = []
-    for modname, attr in _CLOCK_SITES:
-        mod = sys.modules.get(modname)
-        if mod is None:
-            __import__(modname)
-            mod = sys.modules[modname]
-        if hasattr(mod, attr):
-            saved.append((mod, attr, getattr(mod, attr)))
-            setattr(mod, attr, fn)
+    for modname, _ in _CLOCK_SITES:
+        if modname not in sys.modules:
+            try:
+                __import__(modname)
+            except ImportError:
+                pass
+    for modname, mod in list(sys.modules.items()):
+        if mod is None or not (modname == "haiway" or modname.startswith("haiway.")):
+            continue
+        for attr, val in list(vars(mod).items()):
+            if val is _REAL_MONOTONIC:
+                saved.append((mod, attr, val))
+                setattr(mod, attr, fn)
+    saved.append((time, "monotonic", time.monotonic))
+    time.monotonic = fn
     try:
         yield
     finally:
